@@ -82,6 +82,10 @@ type Store struct {
 
 const dryRejectAnnotation = "verif.example/dry-run-reject"
 
+// objects carrying this annotation get NotFound from a DRY-RUN apply of a not yet existing object (and only
+// from that): the preflight dry run then falls back to a dry-run create, which is accepted.
+const applyDry404Annotation = "verif.example/apply-dry-run-notfound"
+
 func NewStore(scheme *runtime.Scheme, mapper meta.RESTMapper) *Store {
 	return &Store{
 		scheme: scheme, mapper: mapper, objs: map[storeKey]map[string]any{},
@@ -706,6 +710,9 @@ func (s *Store) Patch(_ context.Context, obj client.Object, patch client.Patch, 
 			return s.end(r, err)
 		}
 		delete(applied, "status")
+		if !exists && r.DryRun && au.GetAnnotations()[applyDry404Annotation] != "" {
+			return s.end(r, apierrors.NewNotFound(gr(k), k.Name))
+		}
 		if !exists {
 			newObj = applied
 		} else {
